@@ -19,20 +19,20 @@ def full_projection(m, rings=False):
     atoms = [{'n': n, 'z': a.atomic_number, 'c': a._charge, 'i': a._isotope or 0, 'h': chy.ival(a._implicit_hydrogens),
               'r': 1 if a._is_radical else 0, 'p': chy.parity(m, n, idx)} for n, a in m._atoms.items()]
     bonds = sorted([min(idx[n], idx[k]), max(idx[n], idx[k]), int(b._order)] for n, k, b in m.bonds())
-    d = {'atoms': atoms, 'bonds': bonds, 'ct': chy.cistrans(m, idx)}
+    d = {'atoms': atoms, 'bonds': bonds, 'ct': chy.cistrans(m, idx) + chy.axial(m, idx)}
     if rings:
         d['rings'] = [[idx[x] for x in r] for r in m.sssr]
     return d, idx
 
 
-def allene_or_other_stereo(m):
-    """stereo marks the parity / same-side projection does not represent (allenes, cumulenes): such molecules are skipped"""
+def allene_or_other_stereo(m, cumulenes=False):
+    """stereo marks the projection does not represent: such molecules are skipped.  With cumulenes=True (C01, where configuration is
+    only compared between two projections) allene and cumulene marks count as represented (chy.axial)."""
     idx = {n: i + 1 for i, n in enumerate(m._atoms)}
-    for n, a in m._atoms.items():
-        if a._stereo is not None and chy.parity(m, n, idx) == 2:
-            return True
+    ax = chy.axial(m, idx) if cumulenes else []
+    nodd = sum(1 for n, a in m._atoms.items() if a._stereo is not None and chy.parity(m, n, idx) == 2)
     nct = sum(1 for *_, b in m.bonds() if b._stereo is not None)
-    return nct != len(chy.cistrans(m, idx))
+    return nodd + nct != len(chy.cistrans(m, idx)) + len(ax)
 
 
 def normal(m):
@@ -130,14 +130,14 @@ def observe(case):
         m = normal(smiles(case['smi']))
     except Exception as e:
         return [{'skip': type(e).__name__}]
-    if allene_or_other_stereo(m):
+    if allene_or_other_stereo(m, cumulenes=True):
         return [{'skip': 'stereo-not-represented'}]
     g, gidx = full_projection(m, rings=True)
     sg = str(m)
     out = []
 
     def rec(kind, act, v, mp):
-        if allene_or_other_stereo(v):
+        if allene_or_other_stereo(v, cumulenes=True):
             return
         h, hidx = full_projection(v)
         f = [hidx[mp[n]] for n in m._atoms] if mp is not None and len(v) == len(m) and all(mp[n] in hidx for n in m._atoms) else list(range(1, len(v) + 1))
@@ -204,7 +204,8 @@ def run(ck):
              'O=c1cc[nH]cc1', 'OC1=CC=NC=C1', 'c1ccc2c(c1)c1ccccc21', 'c1ccc2c(c1)-c1ccccc1-2', 'c1ccc2c(c1)c1ccccc1c1ccccc21', 'c1ccc2cc3ccccc3cc2c1', 'c1ccc2c(c1)ccc1ccccc12', 'C1CCC2CCCCC2C1',
              'c1ccc2c(c1)Cc1ccccc1-2', 'c1cc2ccc3cccc4ccc(c1)c2c34', 'C1C2CC3CC1CC(C2)C3', 'C12C3C4C1C5C2C3C45', 'c1ccc(cc1)-c1ccc(cc1)-c1ccccc1', 'C1CC2CCC1C2', 'C1CCC2(CC1)OCCO2',
              'C/C(F)=C/O/C=C(\\C)F', 'C/C(F)=C/Cl.C/C(F)=C\\Cl', 'C/C(F)=C/Cl.C/C(F)=C/Cl', 'CC(C)=CCC/C(C)=C/CC/C(C)=C/CC/C=C(\\C)CC/C=C(\\C)CCC=C(C)C',
-             'C/C(N)=C/CC/C=C(/C)N', 'F/C(Cl)=C/C/C=C(/F)Cl', 'F/C(Cl)=C/C/C=C(\\F)Cl', 'O/N=C(/C)CC/C(C)=N/O', 'O/N=C(/C)CC/C(C)=N\\O', 'C1=CC=C1', 'C1=CC=CC=CC=C1', 'C1=CC=CC=CC=CC=CC=C1', 'C1=CC2=CC=C1C=C2', 'N1=CC=NC=C1', 'C1=CC=NC=CC=N1', 'C1CC2CCC1C2', 'C1CC2CCC1CC2', 'C[Fe]C', '[Fe+2].[O-]C=O.[O-]C=O', 'CC(C)C[C@H](N)C(=O)N[C@@H](C)C(O)=O']
+             'C/C(N)=C/CC/C=C(/C)N', 'F/C(Cl)=C/C/C=C(/F)Cl', 'F/C(Cl)=C/C/C=C(\\F)Cl', 'O/N=C(/C)CC/C(C)=N/O', 'O/N=C(/C)CC/C(C)=N\\O', 'C1=CC=C1', 'C1=CC=CC=CC=C1', 'C1=CC=CC=CC=CC=CC=C1', 'C1=CC2=CC=C1C=C2', 'N1=CC=NC=C1', 'C1=CC=NC=CC=N1', 'C1CC2CCC1C2', 'C1CC2CCC1CC2', 'FC(Cl)=[C@]=C(Br)I', 'FC(Cl)=[C@@]=C(Br)I', 'FC=[C@]=CCl', 'CC=[C@@]=CF', 'CC(F)=[C@]=C(C)CC', 'C/C=C=C=C/C', 'C/C=C=C=C\\C', 'F/C(Cl)=C=C=C(/Br)I',
+             'CC=[C@]=C=C=CC', 'C[C@H](O)C=[C@@]=CC', 'CC=[C@]=CC/C=C/C', 'C1CCCC=[C@]=CCCC1', 'C[Fe]C', '[Fe+2].[O-]C=O.[O-]C=O', 'CC(C)C[C@H](N)C(=O)N[C@@H](C)C(O)=O']
     cases = [{'key': s, 'smi': s, 'rs': rnd.randrange(1 << 30), 'nrand': 3 if ck.quick else 6} for s in sel] + \
             [{'key': s, 'smi': s, 'rs': rnd.randrange(1 << 30), 'nrand': 6 if ck.quick else 20, 'nren': 10 if ck.quick else 40} for s in extra]
     cases = ck.select('actions', cases)
